@@ -11,7 +11,7 @@ from typing import Dict, List, Optional
 
 from ..core import astq
 from ..core.program import norm, short
-from .geomval import (ONE, Cfg, Cms, Const, Func, Geo, HDict, HList, HObj, Mismatch, Mono, Num, Other, Ref, Shape, Top, Tup, V, join)
+from .geomval import (strip_aug, strip_offs, ONE, Cfg, Cms, Const, Func, Geo, HDict, HList, HObj, Mismatch, Mono, Num, Other, Ref, Shape, Top, Tup, V, join)
 
 PASS_EXT = {
     "torch.unsqueeze", "torch.squeeze", "torch.from_numpy", "torch.as_tensor", "torch.round", "torch.nan_to_num", "torch.clone", "torch.tensor",
@@ -67,13 +67,17 @@ class Leaves:
             return boxes
         if not (isinstance(img, Geo) and img.kind == "IMG" and isinstance(boxes, Geo) and boxes.kind == "BOX"):
             return I.top(f"{what}: image {img!r} / boxes {boxes!r} at {I.where(fr, node)}")
-        ok = img.mono == boxes.mono and img.offs == boxes.offs
-        I.oblig("R-reg", ok, f"{what} in {self._caller(fr)}: image {img!r} cropped with boxes {boxes!r}",
-                f"the image is in frame <{img.mono}> but the crop boxes are in frame <{boxes.mono}>: the crop is cut at the wrong place/size", I.where(fr, node),
-                {"image": repr(img), "boxes": repr(boxes)})
-        if not ok:
-            return Mismatch((img, boxes), f"{what} of an image with boxes of another frame at {I.where(fr, node)}")
-        return Geo("IMG", img.mono, img.offs | {(boxes.label, boxes.mono)})
+        labels = lambda offs: frozenset(l for l, _ in offs)
+        if labels(img.offs) != labels(boxes.offs):
+            I.oblig("R-reg", False, f"{what} in {self._caller(fr)}: image {img!r} cropped with boxes {boxes!r}",
+                    f"the image lives in crop(s) {sorted(labels(img.offs))} but the boxes were computed in crop(s) {sorted(labels(boxes.offs))}", I.where(fr, node))
+            return Mismatch((img, boxes), f"{what} with boxes of another crop at {I.where(fr, node)}")
+        ok = strip_aug(img.mono) == strip_aug(boxes.mono) and strip_offs(img.offs) == strip_offs(boxes.offs)
+        I.oblig("R-centre", ok, f"{what} in {self._caller(fr)}: image {img!r} cropped with boxes {boxes!r}",
+                f"the image is in frame <{img.mono}> but the crop boxes were computed from coordinates in frame <{boxes.mono}>: the crop is not cut around the "
+                "intended centre", I.where(fr, node), {"image": repr(img), "boxes": repr(boxes)})
+        # kornia reads the box numbers in the image's own pixel grid: the crop origin is that box, in the image's units
+        return Geo("IMG", img.mono, img.offs | {(boxes.label, img.mono)})
 
     # ----------------------------------------------------------- contracts
     def contract(self, I, fr, f: Func, args: List[V], kwargs: Dict[str, V], node: ast.Call) -> Optional[V]:
@@ -111,6 +115,32 @@ class Leaves:
         if q in ("sleap_nn.data.instance_centroids:generate_centroids", "sleap_nn.data.instance_centroids:find_points_bbox_midpoint"):
             p = bound.get("points")
             return p if p is not None else I.top("centroids of nothing")
+        if q == "sleap_nn.data.utils:make_grid_vectors":
+            h = bound.get("image_height")
+            if isinstance(h, Shape):
+                return Tup((Shape(h.of), Shape(h.of)))
+            return Tup((Other("xv"), Other("yv")))
+        if q in ("sleap_nn.data.confidence_maps:make_confmaps", "sleap_nn.data.confidence_maps:make_multi_confmaps", "sleap_nn.data.edge_maps:make_multi_pafs"):
+            xv = bound.get("xv")
+            pts = bound.get("points_batch", bound.get("edge_sources"))
+            if isinstance(xv, Shape):
+                img = xv.of
+                rec = {"generator": q.split(":")[-1], "caller": fr.fi.qualname if fr.fi else "?", "points": repr(pts), "image": repr(img),
+                       "sigma": repr(bound.get("sigma")), "output_stride": "", "where": w}
+                self.target_calls.append(rec)
+                if isinstance(pts, Geo) and isinstance(img, Geo):
+                    ok = frame_of(pts) == frame_of(img)
+                    I.oblig("R-reg", ok, f"{q.split(':')[-1]} in {self._caller(fr)}: points {pts!r} on the grid of image {img!r}",
+                            f"targets are drawn from keypoints in frame {pts!r} on the grid of an image in frame {img!r}", w)
+                elif isinstance(pts, Mismatch) or isinstance(img, Mismatch):
+                    I.oblig("R-reg", False, f"{q.split(':')[-1]} in {self._caller(fr)}", f"keypoints/image without a single frame: {pts!r} / {img!r}", w)
+                else:
+                    I.oblig("R-reg", None, f"{q.split(':')[-1]} in {self._caller(fr)}", f"frames unknown: {pts!r} / {img!r}", w)
+                return Other("targets")
+            return Other("targets")
+        if q == "sleap_nn.data.edge_maps:get_edge_points":
+            p0 = bound.get("instances")
+            return Tup((p0, p0)) if p0 is not None else None
         if q in GEN_SINKS:
             pn, hn = GEN_SINKS[q]
             pts, hw = bound.get(pn), bound.get(hn)
@@ -118,7 +148,7 @@ class Leaves:
             rec = {"generator": q.split(":")[-1], "caller": fr.fi.qualname if fr.fi else "?", "points": repr(pts), "image": repr(img),
                    "sigma": repr(bound.get("sigma")), "output_stride": repr(bound.get("output_stride")), "where": w}
             self.target_calls.append(rec)
-            if isinstance(pts, (Top,)) or img is None or isinstance(img, Top):
+            if isinstance(pts, (Top,)) or img is None or isinstance(img, Top) or not isinstance(pts, (Geo, Mismatch)) or not isinstance(img, (Geo, Mismatch)):
                 I.oblig("R-reg", None, f"{q.split(':')[-1]} in {self._caller(fr)}", f"could not determine the frames of points ({pts!r}) / image ({hw!r})", w)
             elif isinstance(pts, Mismatch) or isinstance(img, Mismatch):
                 I.oblig("R-reg", False, f"{q.split(':')[-1]} in {self._caller(fr)}: points {pts!r}, image {img!r}",
@@ -353,7 +383,7 @@ class Leaves:
                 return I.new_list(I.new_obj("sio:Instance", {}))
             return Other(attr)
         if o.cls == "sio:Instance":
-            return Other(attr)
+            return None if attr == "numpy" else Other(attr)
         if o.cls == "sio:Labels":
             if attr == "labeled_frames":
                 return I.new_list(I.new_obj("sio:LabeledFrame", {}))
